@@ -70,6 +70,8 @@ InitLoc(st) ==
     [] OTHER -> [z |-> 0]
 
 CountMark(n) == "count=" \o ToString(n)
+\* Count stores its result under the single context key "count": a later Count overwrites an earlier one
+CountMarks == {CountMark(k) : k \in 0..200}
 RECURSIVE Rev(_)
 Rev(xs) == IF xs = <<>> THEN <<>> ELSE Append(Rev(Tail(xs)), Head(xs))
 SumVal(tot, c) == Val(tot, c, c # {})
@@ -124,7 +126,7 @@ OnHave(st, loc, v) ==
 
 \* values emitted when the stage finds its input exhausted
 OnEof(st, loc) ==
-  CASE st.t = "count" -> IF loc.has THEN <<[loc.prev EXCEPT !.c = @ \cup {CountMark(loc.n)}, !.h = TRUE]>> ELSE <<>>
+  CASE st.t = "count" -> IF loc.has THEN <<[loc.prev EXCEPT !.c = (@ \ CountMarks) \cup {CountMark(loc.n)}, !.h = TRUE]>> ELSE <<>>
     [] st.t = "lastk" -> loc.dq
     [] st.t = "reverse" -> Rev(loc.buf)
     [] st.t = "sum" -> <<SumVal(loc.tot, loc.c)>>
